@@ -1552,6 +1552,20 @@ def rule_s(ctx: Ctx) -> None:
     ctx.min_instances("stepped_walks", n, 2)
 
 
+def _reported_missing(test: ast.AST) -> str | None:
+    """X for the tests `not X`, `X is None`, `not isinstance(X, ...)` (the branch reports X as missing / of the wrong kind)."""
+    if isinstance(test, ast.UnaryOp) and isinstance(test.op, ast.Not):
+        o = test.operand
+        if isinstance(o, ast.Name):
+            return o.id
+        if isinstance(o, ast.Call) and norm(o.func) == "isinstance" and o.args and isinstance(o.args[0], ast.Name):
+            return o.args[0].id
+    if isinstance(test, ast.Compare) and len(test.ops) == 1 and isinstance(test.ops[0], ast.Is) and isinstance(test.left, ast.Name) \
+            and isinstance(test.comparators[0], ast.Constant) and test.comparators[0].value is None:
+        return test.left.id
+    return None
+
+
 def _fallthrough_uses(fn: ast.AST) -> list[tuple[ast.If, str, ast.AST]]:
     """`if not X: self.raise_error(...)` without an exit, followed in the same block by X.attr / X[...] / *X outside any test of X."""
     out = []
@@ -1565,12 +1579,14 @@ def _fallthrough_uses(fn: ast.AST) -> list[tuple[ast.If, str, ast.AST]]:
             if not isinstance(seq, list):
                 continue
             for i, st in enumerate(seq):
-                if not (isinstance(st, ast.If) and isinstance(st.test, ast.UnaryOp) and isinstance(st.test.op, ast.Not) and isinstance(st.test.operand, ast.Name) and not st.orelse):
+                if not (isinstance(st, ast.If) and not st.orelse):
+                    continue
+                x = _reported_missing(st.test)
+                if x is None:
                     continue
                 last = st.body[-1]
                 if not (isinstance(last, ast.Expr) and isinstance(last.value, ast.Call) and norm(last.value.func) == "self.raise_error"):
                     continue
-                x = st.test.operand.id
                 for later in seq[i + 1:]:
                     if any(isinstance(a, ast.Assign) and any(isinstance(t_, ast.Name) and t_.id == x for t_ in a.targets) for a in ast.walk(later)):
                         break  # rebound
